@@ -435,7 +435,9 @@ func newAddressScriptHash32FromHash(scriptHash []byte, net *chaincfg.Params) (*A
 // EncodeAddress returns the string encoding of a pay-to-script-hash
 // address.  Part of the Address interface.
 func (a *AddressScriptHash32) EncodeAddress() string {
-	return encodeCashAddress(a.hash[:], a.prefix, AddrTypePayToScriptHash) // TODO TODO
+	// A 32 byte script hash is a cashaddr of type P2SH whose size bits
+	// announce a 256 bit payload, so all 32 bytes are packed.
+	return checkEncodeCashAddress(a.hash[:], a.prefix, AddrTypePayToScriptHash)
 }
 
 // ScriptAddress returns the bytes to be included in a txout script to pay
@@ -759,21 +761,24 @@ func checkDecodeCashAddress(input string) (result []byte, prefix string, t Addre
 	if err != nil {
 		return data, prefix, AddrTypePayToPubKeyHash, err
 	}
-	if len(data) != 21 {
+	if len(data) != 21 && len(data) != 33 {
 		return data, prefix, AddrTypePayToPubKeyHash, errors.New("incorrect data length")
 	}
-	switch data[0] {
-	case 0x00:
+	switch {
+	case len(data) == 21 && data[0] == 0x00:
 		t = AddrTypePayToPubKeyHash
-	case 0x08:
+	case len(data) == 21 && data[0] == 0x08:
 		t = AddrTypePayToScriptHash
+	case len(data) == 33 && data[0] == 0x0b:
+		// type P2SH with the size bits of a 256 bit hash
+		t = AddrTypePayToScriptHash32
 	default:
 		// Any other version byte (reserved bit set, unknown type or a
-		// size code that does not match the 160 bit payload) is not an
+		// size code that does not match the payload length) is not an
 		// address this library can represent.
 		return data, prefix, AddrTypePayToPubKeyHash, ErrUnknownAddressType
 	}
-	return data[1:21], prefix, t, nil
+	return data[1:], prefix, t, nil
 }
 
 // AddressType represents the type of address and is used
